@@ -236,8 +236,8 @@ pub fn run(ctx: &mut Ctx) {
     let mut cases = vec![];
     for f in &fs {
         let grids: Vec<(&'static str, Vec<usize>)> = match tier {
-            Tier::Quick => vec![("cartesian1", vec![256]), ("spherical", vec![256]), ("polar", vec![1024]), ("cartesian2", vec![32])],
-            Tier::Thorough => vec![("cartesian1", vec![256, 1024]), ("spherical", vec![256, 1024]), ("polar", vec![1024]), ("cartesian2", vec![32, 64]), ("cylindrical", vec![1024]), ("cartesian3", vec![16])],
+            Tier::Quick => vec![("cartesian1", vec![256]), ("spherical", vec![256]), ("polar", vec![1024]), ("cartesian2", vec![32]), ("periodical2", vec![32])],
+            Tier::Thorough => vec![("cartesian1", vec![256, 1024]), ("spherical", vec![256, 1024]), ("polar", vec![1024]), ("cartesian2", vec![32, 64]), ("periodical2", vec![32, 64]), ("cylindrical", vec![1024]), ("cartesian3", vec![16]), ("periodical3", vec![16])],
         };
         for (kind, ns) in grids {
             for n in ns {
